@@ -152,7 +152,8 @@ func runC15(c *core.Ctx) error {
 	if err != nil {
 		return err
 	}
-	lays := []model.Layout{{NL: "\n"}, {NL: "\n", Multi: 1, Quote: 2}, {NL: "\r\n", Multi: 2, Comments: 1}, {NL: "\n", Comments: 2, TailBlank: 2}, {NL: "\r", Pad: 1}}
+	lays := []model.Layout{{NL: "\n"}, {NL: "\n", Multi: 1, Quote: 2}, {NL: "\r\n", Multi: 2, Comments: 1}, {NL: "\n", Comments: 2, TailBlank: 2}, {NL: "\r", Pad: 1},
+		{NL: "\n", Split: 2}, {NL: "\r\n", Split: 1, Pad: 3}, {NL: "\r", Split: 2, Quote: 1}}
 	rng.Shuffle(len(ps), func(i, j int) { ps[i], ps[j] = ps[j], ps[i] })
 	for i, p := range ps {
 		if i >= c.Pick(700, 6000) {
@@ -162,7 +163,10 @@ func runC15(c *core.Ctx) error {
 	}
 	roots := []string{`@t`, `@a | @b`, `12 // {min: 1}`, `12 // {min: 1} - note`, `"Tom" /* {minLength: 1} */`, `"Tom"`, `12`, `-0.50`, `true`, `null`,
 		"[\n  1,\n  2\n]", "[ // {minItems: 1}\n  @t\n]", `{}`, `[]`, "{\n  \"a\": @t // {optional: true}\n}", "{\n  @k: 1\n}", `[1, 2]`, `{"a": 1}`,
-		"12 # user comment", "12 // note only", "{ // note\n}", "@t // {optional: false}", "  12  ", "\n\n12\n\n"}
+		"12 # user comment", "12 // note only",
+		// one element, two annotations: the note on the line after the rules, or in an annotation of its own before them
+		"42 // {min: 1}\n// the answer", "\"Tom\" // {minLength: 1}\r\n// a note", "[] // {maxItems: 0}\n  // n", "@t // {optional: false}\n// note",
+		"42 /* {min: 1} - the note */ // {max: 50}", "42 /* the note */ // {min: 1, max: 50}", "{ // {additionalProperties: true}\n// n\n}", "{ // note\n}", "@t // {optional: false}", "  12  ", "\n\n12\n\n"}
 	ss = append(ss, roots...)
 	for _, it := range corpus.Harvest(600, "notations/jschema") {
 		ss = append(ss, it.Text)
